@@ -9,5 +9,6 @@ cat /repo/go.sum harness/go.sum.extra > harness/go.sum
 ROOT="$PWD"; (cd /repo && go build -tags verif -o "$ROOT/harness/bin/goat" ./cmd/goat)
 ./harness/bin/vh extract lean/GoatSpec/Extracted.lean
 ./harness/bin/vh skeleton lean/GoatSpec/Skeleton.lean
+./harness/bin/vh walker lean/GoatSpec/Walker.lean
 (cd lean && lake build GoatSpec goatspec)
 echo setup-ok
